@@ -33,6 +33,17 @@ func vhNoPanic(name string, f func()) {
 	f()
 }
 
+// vhC13Codec is the user Codec of the run: the strict harness codec, or none at
+// all ("nocodec"=1) — a system may be configured without a Codec (custom types
+// are then registered with RegisterCustomMessage), and a message it has no
+// (de)serialiser for must still be an error, not a panic.
+func vhC13Codec() vivid.Codec {
+	if vrtParam("nocodec", 0) == 1 {
+		return nil
+	}
+	return vhStrictCodec{}
+}
+
 // VH_C13_reader_total: the registered reader of the type selected by "type"
 // on every byte string of length n (n = 0..N, fully symbolic): returns a value
 // or an error; never panics; allocation requests stay within the budget.
@@ -67,7 +78,7 @@ func VH_C13_envelope_symbolic() {
 	data := vrtBytes(n)
 	vrtAllocBudget(vrtParam("budget", 65536))
 	vhNoPanic("decode-no-panic", func() {
-		_, _, _, _, _, msg, err := serialize.DecodeEnvelopWithRemoting(vhStrictCodec{}, data)
+		_, _, _, _, _, msg, err := serialize.DecodeEnvelopWithRemoting(vhC13Codec(), data)
 		if err == nil {
 			vrtReach("decoded-ok")
 			vrtAssert(msg != nil, "ok-implies-value")
@@ -77,7 +88,7 @@ func VH_C13_envelope_symbolic() {
 	})
 	vhNoPanic("decode-no-panic", func() {
 		r := messages.NewReader(data)
-		_, err := r.ReadMessage(vhStrictCodec{})
+		_, err := r.ReadMessage(vhC13Codec())
 		if err != nil {
 			vrtReach("readmessage-error")
 		}
@@ -126,7 +137,7 @@ func VH_C13_envelope_mutations() {
 		vrtReach("corrupted")
 	}
 	vhNoPanic("decode-no-panic", func() {
-		_, _, _, _, _, _, err := serialize.DecodeEnvelopWithRemoting(vhStrictCodec{}, in)
+		_, _, _, _, _, _, err := serialize.DecodeEnvelopWithRemoting(vhC13Codec(), in)
 		if err != nil {
 			vrtReach("decode-error")
 		} else {
@@ -158,16 +169,16 @@ func VH_C13_encode_total() {
 		{"nil-actorref", func() error { return messages.NewWriter().WriteFrom(nilRef) }},
 		{"struct-with-map", func() error { return messages.NewWriter().WriteFrom(withMap{}) }},
 		{"nil-pointer", func() error { return messages.NewWriter().WriteFrom(nilPtr) }},
-		{"message-nil", func() error { return messages.NewWriter().WriteMessage(nil, vhStrictCodec{}) }},
-		{"message-non-pointer", func() error { return messages.NewWriter().WriteMessage("text", vhStrictCodec{}) }},
-		{"message-nil-field-pong", func() error { return messages.NewWriter().WriteMessage(&messages.PongMessage{}, vhStrictCodec{}) }},
-		{"message-pipe-nil-inner", func() error { return messages.NewWriter().WriteMessage(&vivid.PipeResult{Id: "x"}, vhStrictCodec{}) }},
+		{"message-nil", func() error { return messages.NewWriter().WriteMessage(nil, vhC13Codec()) }},
+		{"message-non-pointer", func() error { return messages.NewWriter().WriteMessage("text", vhC13Codec()) }},
+		{"message-nil-field-pong", func() error { return messages.NewWriter().WriteMessage(&messages.PongMessage{}, vhC13Codec()) }},
+		{"message-pipe-nil-inner", func() error { return messages.NewWriter().WriteMessage(&vivid.PipeResult{Id: "x"}, vhC13Codec()) }},
 		{"envelope-nil-message", func() error {
-			_, err := serialize.EncodeEnvelopWithRemoting(vhStrictCodec{}, mailbox.NewEnvelop(false, nil, nil, nil))
+			_, err := serialize.EncodeEnvelopWithRemoting(vhC13Codec(), mailbox.NewEnvelop(false, nil, nil, nil))
 			return err
 		}},
 		{"envelope-non-pointer-message", func() error {
-			_, err := serialize.EncodeEnvelopWithRemoting(vhStrictCodec{}, mailbox.NewEnvelop(false, nil, nil, 42))
+			_, err := serialize.EncodeEnvelopWithRemoting(vhC13Codec(), mailbox.NewEnvelop(false, nil, nil, 42))
 			return err
 		}},
 	}
